@@ -423,6 +423,24 @@ def docArgs (pj : Json) : Option (List String) :=
     | _ => none
   | _ => some []
 
+/-- the harness substitutes the scratch path of its meminfo file for `@MEMINFO` -/
+partial def normMeminfo (j : Json) : Json :=
+  match j with
+  | Json.str s => if (s.splitOn "/cfg-").length > 1 && s.endsWith "/meminfo" then Json.str "@MEMINFO" else j
+  | Json.arr a => Json.arr (a.map normMeminfo)
+  | Json.obj kvs => Json.obj (kvs.foldl (init := {}) fun acc k v => acc.insert k (normMeminfo v))
+  | _ => j
+
+/-- the string an argument given as this scalar must arrive as: a string as itself, a bool as `true`/`false`, an
+    integer of [-2^63, 2^64) as its exact decimal numeral ("64-bit values are neither truncated, wrapped nor silently
+    replaced"); for reals the property fixes no rendering, `none` -/
+def docArgVal (v : Json) : Option String :=
+  match v with
+  | Json.str s => some s
+  | Json.bool b => some (if b then "true" else "false")
+  | Json.num n => if n.exponent == 0 && -(2 : Int) ^ 63 ≤ n.mantissa && n.mantissa < (2 : Int) ^ 64 then some (toString n.mantissa) else none
+  | _ => none
+
 def elemsOf (j : Json) : List Json :=
   match j with
   | Json.arr a => a.toList
@@ -448,18 +466,15 @@ def argsKept (tree irj : Json) : List String :=
   let one (dp ip : Json) : List String :=
     match docArgs dp with
     | none => ["args-dropped"]
-    | some ks => if sortStrs ks == sortStrs ((objList (jobj ip "args")).map (·.1)) then [] else ["args-dropped"]
+    | some ks =>
+      if sortStrs ks != sortStrs ((objList (jobj ip "args")).map (·.1)) then ["args-dropped"]
+      else (objList (jobj dp "args")).filterMap fun (k, v) =>
+        match docArgVal v with
+        | some want => if normMeminfo (jobj (jobj ip "args") k) == Json.str want then none else some "arg-value-replaced"
+        | none => none
   let lists (ds is : List Json) : List String :=
     if ds.length != is.length then ["plugin-count"] else (ds.zip is).flatMap fun (a, b) => one a b
   (if d.1.length != i.1.length then ["ruleset-count"] else (d.1.zip i.1).flatMap fun (a, b) => lists a b) ++ lists d.2 i.2
-
-/-- the harness substitutes the scratch path of its meminfo file for `@MEMINFO` -/
-partial def normMeminfo (j : Json) : Json :=
-  match j with
-  | Json.str s => if (s.splitOn "/cfg-").length > 1 && s.endsWith "/meminfo" then Json.str "@MEMINFO" else j
-  | Json.arr a => Json.arr (a.map normMeminfo)
-  | Json.obj kvs => Json.obj (kvs.foldl (init := {}) fun acc k v => acc.insert k (normMeminfo v))
-  | _ => j
 
 def docOf (sc tr : Json) (treeKey parseKey : String) : Option (Option JVal) :=
   -- jsoncpp's verdict on the syntax is taken from the harness; the tree from the scenario
